@@ -1,5 +1,6 @@
 """C15 — every bar is sliced into a well-formed chain of nodes."""
 import re
+from fractions import Fraction as Fr
 
 from .. import gen_struct as G
 from .. import oracles as O
@@ -13,6 +14,17 @@ def gen(rng, tier):
     cases += [core.case_from_struct(G.gen_frame(rng), Weight=core.weights(i)) for i in range(n2)]
     cases += [core.case_from_struct(G.gen_twins(rng), Weight=core.weights(i)) for i in range(6 if tier == "quick" else 100)]
     cases += [core.case_from_struct(G.gen_pinned_near_end(rng), Weight=False) for i in range(8 if tier == "quick" else 100)]
+    # bars that are short in the units of the file (a bracket in a structure given in kilometres): length is not a slicing criterion
+    for i in range(6 if tier == "quick" else 60):
+        s = G.gen_single_bar(rng)
+        b = s.bars[0]
+        (x1, y1, c1), (x2, y2, c2) = s.nodes[b["n1"]], s.nodes[b["n2"]]
+        k = Fr(rng.choice(["0.000002", "0.0000007", "0.00001"]))
+        s.nodes[b["n2"]] = (x1 + (x2 - x1) * k, y1 + (y2 - y1) * k, c2)
+        if i % 2 == 0:
+            s.loads = []
+        s.meta = {"kind": "short-bar"}
+        cases.append(core.case_from_struct(s, Weight=False))
     return cases
 
 
